@@ -40,7 +40,7 @@ RULE = (
     "{None, narrower, wider} x fill_value in {None, int, NaN}) evaluated eagerly with every engine that accepts it and "
     "chunked under 3 random (method, reindex, chunking, engine, label kind) variants on the simulated cluster (faults on). "
     "Truthful: dtype, shape, chunks and array type announced by the lazy result are compared with EVERY computed output "
-    "block taken at the scheduler seam (not with the assembled array), and with the assembled array. Plan-independent: "
+    "block taken at the scheduler seam (not with the assembled array), and with the assembled array; the first variant is also evaluated in ONE graph together with a sibling call that differs only in dtype= and both must come back with their announced dtype. Plan-independent: "
     "all evaluations of the call must have one dtype and one shape. Convention: with dtype=None and no fill in play the "
     "dtype must equal what NumPy itself returns for that reduction on that input dtype (table computed from NumPy at run "
     "time: sum/prod, mean/var/std, min/max/first/last, count/arg, all/any). Non-trivial iff some chunked variant has "
@@ -48,7 +48,7 @@ RULE = (
 )
 ASSUMPTIONS = ["cells where the statement is open-ended (result widened to hold a fill_value; order statistics; datetime means) "
                "are checked for plan independence and truthfulness only", "sampled, not exhaustive"]
-PROBES = ["numpy_convention_checked", "blocks_checked", "unknown_chunk_sizes", "dtype_kw_narrower", "dtype_kw_wider",
+PROBES = ["dtype_sibling_cocomputed", "numpy_convention_checked", "blocks_checked", "unknown_chunk_sizes", "dtype_kw_narrower", "dtype_kw_wider",
           "fill_nan_on_int", "datetime_input", "engines_compared>=3", "resolved_cohorts", "resolved_blockwise"]
 
 INT_DTYPES = ["i1", "i2", "i4", "i8", "u1", "u2", "u4", "u8"]
@@ -253,6 +253,28 @@ def run(case, tape: Tape, ctx):
         seen.append((which, final.dtype, final.shape))
         ctx.probe("resolved_cohorts", plan.get("method") == "cohorts")
         ctx.probe("resolved_blockwise", plan.get("method") == "blockwise")
+    # truthful also when two results that differ only in the requested dtype are evaluated in ONE graph
+    if func not in ARG + BOOL + ["count"] and arr.dtype.kind in "iuf" and case["variants"]:
+        v = case["variants"][0]
+        sib = copy.deepcopy(_variant_case(case, v))
+        skw = dict(sib["kwargs"])
+        cur = kw.get("dtype")
+        skw["dtype"] = enc_value("f8" if cur == "f4" else "f4")
+        sib["kwargs"] = skw
+        try:
+            c1, _, o1 = call_chunked(_variant_case(case, v))
+            c2, _, o2 = call_chunked(sib)
+            if c1 and c2 and hasattr(o1[0], "dask") and hasattr(o2[0], "dask"):
+                both = exec_sim([o1[0], o2[0]], tape, v["knobs"], ctx, info=RunInfo())
+                for lazy, got, tag in ((o1[0], both[0], "first"), (o2[0], both[1], "dtype-sibling")):
+                    if np.asarray(got).dtype != lazy.dtype:
+                        raise Violation(
+                            "meta", f"two lazy results differing only in dtype= ({cur!r} vs {dec_value(skw['dtype'])!r}) evaluated in one "
+                            f"graph: the {tag} result announced {lazy.dtype} but the computed array has {np.asarray(got).dtype}",
+                            what="co-computed-dtype")
+                ctx.probe("dtype_sibling_cocomputed")
+        except (TaskError, OverflowError) + REFUSALS:
+            ctx.skip_slot("dtype-sibling-refused")
     # plan independence
     d0 = seen[0]
     for lab, dt, sh in seen[1:]:
